@@ -1,11 +1,11 @@
 SPECIFICATION Spec
 VIEW View
-INVARIANTS TypeOK LeaksOnlyKnown
+INVARIANTS TypeOK LeaksOnlyS3 LeaksOnlyKnown
 CHECK_DEADLOCK FALSE
 CONSTANTS
  HonorsHost = FALSE
- SchemeBound = FALSE
- StripOnRedirect = FALSE
+ SchemeBound = TRUE
+ StripOnRedirect = TRUE
  MaxFaults = 3
  Confs <- QuickGenConfs
  ChalKinds <- AllChal
